@@ -64,6 +64,9 @@ def closed_form(case):
     nz = len(z)
     const = tuple(float(p[0]) for p in St["profiles"])
     levels, lkind = solve.pick_levels(rng, nz)
+    if case["idx"] % 12 == 5 and nz >= 3:
+        # under very strong damping: the top first, then lower levels (a component that has underflowed aloft is still there below)
+        levels, lkind = [nz - 1, int(rng.integers(1, nz - 1)), 0][: int(rng.integers(2, 4))], "descending_from_top"
     nl = solve.nlev(levels)
     lv = [int(levels)] if np.ndim(levels) == 0 else [int(i) for i in levels]
     fp = bool(rng.random() < 0.4)
@@ -183,8 +186,10 @@ def order(case):
         if frac == 0.0:
             L = 0
         kw = dict(footprint=fp, meas_pt=mp, precision="double")
-        _, cn, fn = solve.solve(S2, q0, L, **kw)
-        _, ca, fa = solve.solve(S2, q0, L, analytic=True, **kw)
+        # every other case asks for the surface as a second level, after the output height (a non-ascending request of two levels)
+        Lreq = [L, 0] if (case["idx"] % 2 == 1 and L > 0) else L
+        _, cn, fn = solve.solve(S2, q0, Lreq, **kw)
+        _, ca, fa = solve.solve(S2, q0, Lreq, analytic=True, **kw)
         calls += 2
         # L2 norm over the field: a max-norm error can cross zero at one cell and make a single ratio meaningless
         e = max(float(np.linalg.norm(cn - ca)) / (float(np.linalg.norm(ca)) or 1.0), float(np.linalg.norm(fn - fa)) / (float(np.linalg.norm(fa)) or 1.0))
